@@ -12,3 +12,24 @@ package composer
 
 //@ func (*Version).Compare
 //@   comparator v ~ other                                 [C01]
+
+// ---- constructors: value xor error (C06); the fact is structural (untagged) because callers rely on it
+
+//@ func (*Ecosystem).NewVersion
+//@   ensures xor: (result0 != nil) == (result1 == nil)
+
+//@ func (*Ecosystem).NewVersionRange
+//@   ensures xor: (result0 != nil) == (result1 == nil)
+
+// ---- ranges (C02: a comparator holds exactly when Compare says so)
+
+//@ func (*constraint).matches
+//@   ensures op*: c.operator == "*" ==> result   [C02 C20]
+//@   ensures nil-bound: c.operator != "*" && c.operator != "@" && c.operator != "caret" && c.operator != "caret-0x" && c.operator != "caret-00x" && c.version == nil ==> !result   [C02 C20]
+//@   ensures op=: c.version != nil && c.operator == "=" ==> result == (version.Compare(c.version) == 0)   [C02 C20]
+//@   ensures op!=: c.version != nil && c.operator == "!=" ==> result == (version.Compare(c.version) != 0)   [C02 C20]
+//@   ensures op<: c.version != nil && c.operator == "<" ==> result == (version.Compare(c.version) < 0)   [C02 C20]
+//@   ensures op<=: c.version != nil && c.operator == "<=" ==> result == (version.Compare(c.version) <= 0)   [C02 C20]
+//@   ensures op>: c.version != nil && c.operator == ">" ==> result == (version.Compare(c.version) > 0)   [C02 C20]
+//@   ensures op>=: c.version != nil && c.operator == ">=" ==> result == (version.Compare(c.version) >= 0)   [C02 C20]
+//@   ensures other: c.operator != "=" && c.operator != "!=" && c.operator != "<" && c.operator != "<=" && c.operator != ">" && c.operator != ">=" && c.operator != "*" && c.operator != "@" && c.operator != "caret" && c.operator != "caret-0x" && c.operator != "caret-00x" ==> !result   [C02 C20]
